@@ -24,3 +24,24 @@ def c18_from_c20(tier, seed):
         details["c20_replay"] = m.group(1)
         details["c20_kind"] = rp.get("kind")
     return {"ok": False, "details": details, "failing_input": fi}
+
+
+def c09_loader(tier, seed):
+    """C09 (every pending migration exactly once, in version order) starts from the list the compile-time loader hands to the
+    macro: `load_migrations_from_dir` must return the stored plans in ascending version order whatever the file names and the
+    directory enumeration order are.  Decided on the M1 run's loader cases (real loader vs the model's sort_plans, evaluated in Coq,
+    plus the ascending / same-under-renaming oracle)."""
+    import m1run
+    res = m1run.run_m1(tier, seed)
+    p = os.path.join(res["dir"], "load.jsonl")
+    rows = [json.loads(l) for l in open(p)] if os.path.exists(p) else []
+    hist = [r for r in rows if "ok_macro" in r]
+    bad = [r for r in hist if not r["ok_macro"]]
+    merr = [r for r in rows if "macro_error" in r]
+    details = {"histories": len(hist), "not_in_version_order": len(bad), "K-load mismatches": res.get("load_bad"), "macro_loader_errors": len(merr)}
+    if bad:
+        return {"ok": False, "details": details, "failing_input": {"migration_plans": bad[0]["plans"], "loaded_versions_macro_loader": bad[0]["loaded_macro"],
+                                                                   "note": "stored under file names whose lexicographic order differs from version order"}}
+    if res.get("load_bad") or merr or not hist:
+        return {"ok": False, "details": details}
+    return {"ok": True, "details": details}
